@@ -302,7 +302,7 @@ func runC11(w *mon.W) {
 	if !w.Thorough() {
 		scripts = scripts[:3]
 	}
-	reps := w.Scale(1, 6)
+	reps := w.Scale(1, 24)
 	idx := 0
 	for rep := 0; rep < reps; rep++ {
 		for si, script := range scripts {
